@@ -2,6 +2,9 @@
 import YouVerif.C01.Spec
 namespace YouVerif.C01
 
+/-- all four repaired checks are present in the current source (breaks when the regenerated GenFacts says otherwise) -/
+theorem current_eq : Checks.current = ⟨true, true, true, true⟩ := rfl
+
 /-! ### sorting -/
 
 theorem mem_insertDesc {v x : Val} {l : List Val} : x ∈ insertDesc v l ↔ x = v ∨ x ∈ l := by
@@ -143,7 +146,7 @@ theorem stepBls_inv {C : Crypto} {cd : CD} {lb : LookBack} {step : Nat} {all : L
             obtain ⟨hh, j, hp, hj, hpos, hu⟩ := sortitionOK_true hs
             have hent' : Entitled val := by
               have : entitled val = true := by
-                simp [Checks.current] at hent; exact hent
+                simp [current_eq] at hent; exact hent
               exact entitled_iff.1 this
             have hnot : val.addr ∉ S.map (·.1.addr) := by
               rw [← hinv.sta]; simpa using hdup
@@ -343,9 +346,9 @@ theorem verifyMain_sound {C : Crypto} {versions : Nat → Option Params} {cp : P
                   have hkk : k' = k := by rw [hsig] at hk'; cases hk'; rfl
                   subst hkk
                   have hT : c.pT = cp.pT ∧ c.vT = cp.vT ∧ c.cT = cp.cT := by
-                    simp [Checks.current] at hthr; exact ⟨hthr.1.1, hthr.1.2, hthr.2⟩
+                    simp [current_eq] at hthr; exact ⟨hthr.1.1, hthr.1.2, hthr.2⟩
                   have hE : entitled val = true ∧ 0 < c.subUsers := by
-                    simp [Checks.current] at hent; exact ⟨hent.1, Nat.pos_of_ne_zero hent.2⟩
+                    simp [current_eq] at hent; exact ⟨hent.1, Nat.pos_of_ne_zero hent.2⟩
                   refine ⟨seed, ct, c, uc, a, S, val, hseed, hc, huc, hagg, hT, ⟨hmem, entitled_iff.1 hE.1, ?_⟩, ?_, ?_, hpl⟩
                   · exact ⟨k', hh, j, hmk, hsig, hp, hT.1 ▸ hj, hE.2, hu, hpr⟩
                   · simpa [hT.2.1] using hball
@@ -384,7 +387,7 @@ theorem stepBls_cases {C : Crypto} {cd : CD} {vs : List Val} {total step : Nat} 
           · rename_i hs
             cases h
             obtain ⟨hh, j, hp, hj, hpos, hu⟩ := sortitionOK_true hs
-            have hent' : Entitled val := entitled_iff.1 (by simp [Checks.current] at hent; exact hent)
+            have hent' : Entitled val := entitled_iff.1 (by simp [current_eq] at hent; exact hent)
             exact .inr ⟨val, mk, hh, j, hval, hent', by simpa using hdup, hmk, hp, hj, hpos, hu, rfl, rfl⟩
 
 theorem proofToHash_some {key seed role index : Nat} {p : Option VrfProof} {h : Nat}
@@ -578,7 +581,7 @@ theorem stepSecp_inv {C : Crypto} {cd : CD} {lb : LookBack} {step : Nat} {all : 
             · rename_i hs
               cases h
               obtain ⟨hh, j, hp, hj, hpos, hu⟩ := sortitionOK_true hs
-              have hent' : Entitled val := entitled_iff.1 (by simp [Checks.current] at hent; exact hent)
+              have hent' : Entitled val := entitled_iff.1 (by simp [current_eq] at hent; exact hent)
               have hnot : val.addr ∉ S.map (·.1.addr) := by rw [← hinv.sta]; simpa using hdup
               refine ⟨(val, v) :: S, ⟨by simp [hinv.sta], ?_, ⟨?_, ?_, ?_, ?_, ?_⟩⟩⟩
               · show (st.count + v.votes) % U32 = weight ((val, v) :: S) % U32
